@@ -501,3 +501,194 @@ def sh2(proj, rep):
                     rep.ok('SH2', q, f'`{ast.unparse(st)[:60]}` has {ast.unparse(v.args[1])} columns for every {wname} in {dom[0]}..', m, st)
     rep.count('SH2.reshape_sites', n)
     return n
+
+
+# ------------------------------------------------------------------------------------------------ SH3
+RULE_SH3 = ('SH3: axes are split in the order in which they were merged. Size names bound from `X.shape[k]` carry the identity of that axis; when an array '
+            'whose axis is the merge (a*b) of two such axes is reshaped into separate sizes, the sizes must name a then b. Splitting as (b, a) is '
+            'accepted by NumPy whenever a*b matches but scrambles the entries for every non-square case (a != b).')
+
+
+class _RoleUnknown(Exception):
+    pass
+
+
+class _RoleEval:
+    def __init__(self, fn, summaries):
+        self.fn = fn
+        self.env = {}        # array name -> list of axes; axis = tuple of atoms
+        self.size = {}       # size name -> atom
+        self.summaries = summaries
+        self.fresh = itertools.count()
+
+    def atom_of_size(self, e):
+        """list of atoms a size expression stands for (product), or None for -1"""
+        if isinstance(e, ast.UnaryOp) and isinstance(e.op, ast.USub) and isinstance(e.operand, ast.Constant) and e.operand.value == 1:
+            return None
+        if isinstance(e, ast.Name):
+            if e.id in self.size:
+                return [self.size[e.id]]
+            raise _RoleUnknown(e.id)
+        if isinstance(e, ast.BinOp) and isinstance(e.op, ast.Mult):
+            a, b = self.atom_of_size(e.left), self.atom_of_size(e.right)
+            if a is None or b is None:
+                raise _RoleUnknown('-1 in product')
+            return a + b
+        if isinstance(e, ast.Subscript) and isinstance(e.value, ast.Attribute) and e.value.attr == 'shape' and isinstance(e.value.value, ast.Name) \
+                and isinstance(e.slice, ast.Constant) and e.value.value.id in self.env:
+            ax = self.env[e.value.value.id]
+            k = e.slice.value
+            if -len(ax) <= k < len(ax):
+                return list(ax[k])
+        raise _RoleUnknown(ast.unparse(e)[:30])
+
+    def ev(self, e):
+        if isinstance(e, ast.Name):
+            if e.id in self.env:
+                return self.env[e.id]
+            raise _RoleUnknown(e.id)
+        if isinstance(e, ast.Attribute) and e.attr == 'T':
+            return list(reversed(self.ev(e.value)))
+        if isinstance(e, ast.Attribute) and e.attr in ('real', 'imag'):
+            return self.ev(e.value)
+        if isinstance(e, ast.BinOp) and isinstance(e.op, ast.MatMult):
+            a, b = self.ev(e.left), self.ev(e.right)
+            if len(a) == 2 and len(b) == 2:
+                return [a[0], b[1]]
+            raise _RoleUnknown('matmul rank')
+        if isinstance(e, ast.Subscript) and isinstance(e.value, ast.Call) and isinstance(e.slice, ast.Constant):
+            name = ast.unparse(e.value.func).split('.')[-1]
+            if name in self.summaries and e.slice.value in self.summaries[name] and e.value.args and isinstance(e.value.args[0], ast.Name):
+                src = self.ev(e.value.args[0])
+                return [(f'#{next(self.fresh)}',)] + list(src[1:])
+            raise _RoleUnknown(name)
+        if isinstance(e, ast.Call) and isinstance(e.func, ast.Attribute) and e.func.attr in ('conj', 'conjugate', 'copy') and not e.args:
+            return self.ev(e.func.value)
+        if isinstance(e, ast.Call) and isinstance(e.func, ast.Attribute) and e.func.attr == 'reshape':
+            src = self.ev(e.func.value)
+            args = e.args[0].elts if len(e.args) == 1 and isinstance(e.args[0], (ast.Tuple, ast.List)) else e.args
+            return self.reshape(src, list(args), e)
+        raise _RoleUnknown(ast.unparse(e)[:30])
+
+    def reshape(self, src, args, node):
+        flat = [a for ax in src for a in ax]
+        group_of = {}
+        for gi, ax in enumerate(src):
+            for a in ax:
+                group_of[a] = gi
+        want = [self.atom_of_size(a) for a in args]
+        out = []
+        i = 0
+        for j, w in enumerate(want):
+            if w is None:
+                rest = sum(len(x) for x in want[j + 1:] if x is not None)
+                k = len(flat) - rest - i
+                if k < 0:
+                    raise _RoleUnknown('-1 size')
+                out.append(tuple(flat[i:i + k]))
+                i += k
+                continue
+            seg = flat[i:i + len(w)]
+            if len(seg) < len(w):
+                raise _RoleUnknown('reshape runs out of axes')
+            if len(w) == 1:
+                if seg[0] != w[0]:
+                    # a single requested axis that is another member of the same merged group -> wrong split order
+                    if w[0] in flat and group_of.get(w[0]) == group_of.get(seg[0]) and len(src[group_of[seg[0]]]) > 1:
+                        raise _SplitOrder(f'`{ast.unparse(node)[:90]}` splits the merged axis {"*".join(src[group_of[seg[0]]])} starting with `{ast.unparse(args[j])}` '
+                                          f'(= {w[0]}) where the first factor of the merge is {seg[0]}')
+                    raise _RoleUnknown('axis mismatch')
+            else:
+                if sorted(seg) != sorted(w):
+                    raise _RoleUnknown('merged product mismatch')
+            out.append(tuple(seg))
+            i += len(w)
+        if i != len(flat):
+            raise _RoleUnknown('reshape leaves axes')
+        return out
+
+
+class _SplitOrder(Exception):
+    pass
+
+
+def sh3(proj, rep, modules, summaries=None):
+    """summaries: {callee name: {tuple index: 'same trailing axes as first argument'}}"""
+    rep.rule('SH3', RULE_SH3)
+    summaries = summaries or {'get_matrix_orthogonal_basis': {0, 1}}
+    nsites = 0
+    nfun = 0
+    for mq in modules:
+        m = proj.mod(mq)
+        rep.touch(m)
+        for fi in [f for f in proj.funcs.values() if f.module is m and f.cls is None]:
+            ev = _RoleEval(fi.node, summaries)
+            # parameter ranks from `assert p.ndim==k`
+            for st in ast.walk(fi.node):
+                if isinstance(st, ast.Assert):
+                    for c in ast.walk(st.test):
+                        if isinstance(c, ast.Compare) and isinstance(c.left, ast.Attribute) and c.left.attr == 'ndim' and isinstance(c.left.value, ast.Name) \
+                                and c.left.value.id in fi.all_params and len(c.ops) == 1 and isinstance(c.ops[0], ast.Eq) and isinstance(c.comparators[0], ast.Constant):
+                            p = c.left.value.id
+                            ev.env[p] = [(f'{p}.{k}',) for k in range(c.comparators[0].value)]
+            if not ev.env:
+                continue
+            typed = 0
+            bad = False
+            for st in fi.node.body:
+                if not isinstance(st, ast.Assign):
+                    # look for reshape calls inside other statements (call arguments)
+                    cands = [c for c in ast.walk(st) if isinstance(c, ast.Call) and isinstance(c.func, ast.Attribute) and c.func.attr == 'reshape']
+                else:
+                    cands = [c for c in ast.walk(st.value) if isinstance(c, ast.Call) and isinstance(c.func, ast.Attribute) and c.func.attr == 'reshape']
+                for c in cands:
+                    try:
+                        ev.ev(c)
+                        typed += 1
+                    except _SplitOrder as ex:
+                        typed += 1
+                        bad = True
+                        rep.violation('SH3', fi.qual, f'{ex}: for a non-square input the entries are scrambled (NumPy accepts the reshape because the product of the '
+                                      f'sizes matches)', m, st)
+                    except _RoleUnknown:
+                        pass
+                if isinstance(st, ast.Assign):
+                    t = st.targets[0]
+                    v = st.value
+                    # size bindings
+                    if isinstance(t, ast.Name) and isinstance(v, ast.Subscript) and isinstance(v.value, ast.Attribute) and v.value.attr == 'shape' \
+                            and isinstance(v.value.value, ast.Name) and v.value.value.id in ev.env and isinstance(v.slice, ast.Constant):
+                        ax = ev.env[v.value.value.id]
+                        k = v.slice.value
+                        if -len(ax) <= k < len(ax) and len(ax[k]) == 1:
+                            ev.size[t.id] = ax[k][0]
+                        continue
+                    if isinstance(t, ast.Tuple) and all(isinstance(x, ast.Name) for x in t.elts):
+                        src = None
+                        if isinstance(v, ast.Attribute) and v.attr == 'shape' and isinstance(v.value, ast.Name) and v.value.id in ev.env:
+                            src = ev.env[v.value.id]
+                        elif isinstance(v, ast.Subscript) and isinstance(v.value, ast.Attribute) and v.value.attr == 'shape' and isinstance(v.value.value, ast.Name) \
+                                and v.value.value.id in ev.env and isinstance(v.slice, ast.Slice):
+                            full = ev.env[v.value.value.id]
+                            lo = v.slice.lower.value if isinstance(v.slice.lower, ast.Constant) else (-v.slice.lower.operand.value if isinstance(v.slice.lower, ast.UnaryOp) else None)
+                            hi = v.slice.upper.value if isinstance(v.slice.upper, ast.Constant) else (None if v.slice.upper is None else 'x')
+                            if hi != 'x' and (lo is not None or v.slice.lower is None):
+                                src = full[slice(lo, hi)]
+                        if src is not None and len(src) == len(t.elts):
+                            for x, ax in zip(t.elts, src):
+                                if len(ax) == 1:
+                                    ev.size[x.id] = ax[0]
+                        continue
+                    if isinstance(t, ast.Name):
+                        try:
+                            ev.env[t.id] = ev.ev(v)
+                        except (_RoleUnknown, _SplitOrder):
+                            ev.env.pop(t.id, None)
+            if typed:
+                nfun += 1
+                nsites += typed
+                if not bad:
+                    rep.ok('SH3', fi.qual, f'{typed} reshape(s) split merged axes in merge order', m, fi.node, text=f'{fi.qual} split order')
+    rep.count('SH3.functions', nfun)
+    rep.count('SH3.reshape_sites', nsites)
+    return nfun, nsites
